@@ -102,13 +102,20 @@ class Result:
         self.distinct |= hashes
 
 
-def run_harness(res, name, tier, extra=None, kind="plain", nshards=None, deadline=None, timeout=None):
+def run_harness(res, name, tier, extra=None, kind="plain", nshards=None, deadline=None, timeout=None, warm=False):
     """build harness `name`, run it in `nshards` processes, merge the shard reports into res"""
     exe = build.build_harness(name, kind)
     nshards = nshards or NJOBS
     wd = os.path.join(WORK, name + "-" + kind)
     os.makedirs(wd, exist_ok=True)
     e = env()
+    if warm:   # create the FFTW wisdom of every transform length once, sequentially, before anything is compared
+        r = subprocess.run([exe, "--tier", tier, "--warm"] + (extra or []), capture_output=True, text=True, env=e, cwd=wd, timeout=timeout)
+        if r.returncode != 0:
+            res.violate("%s/harness=%s/warm-up-crash/rc=%d" % (res.prop, name, r.returncode), "--warm tier=%s" % tier,
+                        (r.stderr or "").strip().splitlines()[-1] if (r.stderr or "").strip() else "no output",
+                        replay=dict(harness=name, kind=kind, warm=True, tier=tier, stderr=(r.stderr or "")[-2000:]))
+            return []
 
     def one(i):
         out = os.path.join(wd, "shard%d.json" % i)
